@@ -64,20 +64,20 @@ MayName(E, V, rhoD) ==
 Count(E, c) == Cardinality({i \in 1..Len(E) : c \in E[i].f})
 Counts(E, C) == [c \in 1..C |-> Count(E, c)]
 
-\* 11.16
+\* 11.16 (the ...N / ...S forms take the per-core counts / the set of available cores already computed)
+AvailCoresN(cnt, V, rhoD) == {c \in DOMAIN rhoD : rhoD[c].r # 0 /\ Supermajority(V, cnt[c])}
 AvailCores(E, V, rhoD) == {c \in DOMAIN rhoD : rhoD[c].r # 0 /\ Supermajority(V, Count(E, c))}
 NthCore(S, i) == CHOOSE c \in S : Cardinality({d \in S : d < c}) = i - 1
-AvailSeq(E, V, rhoD) ==
-  LET S == AvailCores(E, V, rhoD)
-  IN [i \in 1..Cardinality(S) |-> [r |-> rhoD[NthCore(S, i)].r, c |-> NthCore(S, i)]]
+AvailSeqS(S, rhoD) == [i \in 1..Cardinality(S) |-> [r |-> rhoD[NthCore(S, i)].r, c |-> NthCore(S, i)]]
+AvailSeq(E, V, rhoD) == AvailSeqS(AvailCores(E, V, rhoD), rhoD)
 
 \* 11.17
-RhoDD(rho, rhoD, E, V, Ht, U) ==
-  LET wset == {rhoD[c].r : c \in AvailCores(E, V, rhoD)}
-  IN [c \in DOMAIN rhoD |->
-        IF rhoD[c].r = 0 THEN Empty
-        ELSE IF rho[c].r \in wset \/ Ht >= rhoD[c].t + U THEN Empty
-        ELSE rhoD[c]]
+RhoDDS(rho, rhoD, S, Ht, U) ==
+  [c \in DOMAIN rhoD |->
+     IF rhoD[c].r = 0 THEN Empty
+     ELSE IF rho[c].r \in {rhoD[d].r : d \in S} \/ Ht >= rhoD[c].t + U THEN Empty
+     ELSE rhoD[c]]
+RhoDD(rho, rhoD, E, V, Ht, U) == RhoDDS(rho, rhoD, AvailCores(E, V, rhoD), Ht, U)
 
 \* 11.29 / 11.43 for a sequence of placements [c |-> core, r |-> report id]
 Engaged(rhoDD, places) == \E i \in 1..Len(places) : rhoDD[places[i].c].r # 0
